@@ -17,7 +17,7 @@ func init() {
 		Stub: []string{"p2p connection layer (a panic inside Receive is what MConnection's recover turns into 'drop that peer': counted, not a violation)", "timeout ticker (simulator-controlled)", "gossip routines (stand-in)", "SimDB", "libxcrypto model"},
 		Assumptions: []string{"messages classified 'must not change state' are invalid by construction (forged proofs, wrong signatures, out-of-range fields); flipped genuine traffic carries no state claim", "allocation bound 256 MiB per message", "liveness demanded >= 90 s of quiet virtual time after the last hostile message"},
 		QuickRuns: 200, QuickBudget: 75 * time.Second, ThoroughRuns: 8000, ThoroughBudget: 25 * time.Minute,
-		RunsPerProcess: 40, RunTimeout: 180 * time.Second,
+		RunsPerProcess: 40, RunTimeout: 600 * time.Second,
 		Run: func(c *kernel.Ctx) { cluster.RunMode(c, cluster.ModeHostile) },
 	})
 }
